@@ -542,7 +542,7 @@ func CheckC11(c *Ctx, entry, input string) {
 
 func RunC11(c *Ctx) {
 	n := 0
-	listWorkload(c, c.Pick(60_000, 1_200_000), true, func(entry, input string) {
+	listWorkload(c, c.Pick(150_000, 2_000_000), true, func(entry, input string) {
 		CheckC11(c, entry, input)
 		n++
 		if n%10000 == 1 {
